@@ -3,6 +3,7 @@
 use crate::exact::*;
 use serde::{Deserialize, Serialize};
 
+pub mod cells;
 pub mod de9im;
 pub mod measure;
 pub mod validity;
